@@ -78,7 +78,7 @@ func runC02(a *Analyzer, r *Results) {
 				}
 				missing = strings.Join(miss, "; ")
 			}
-			ev.Verdict("V8", pr, "the committee is RequestCommitteeForBlockProof(ctx, height of the block, reference time of the previous block) and its error was checked", kind, K != nil, missing)
+			ev.Verdict("V8", props("C02", "C03"), "the committee is RequestCommitteeForBlockProof(ctx, height of the block, reference time of the previous block) and its error was checked", kind, K != nil, missing)
 			if K == nil {
 				K = Unk("no-committee")
 			}
